@@ -87,6 +87,7 @@ var nodeSeq int
 var portBase = 21000 + (os.Getpid()%250)*100
 
 type nodeSpec struct {
+	maxSize           int
 	cookie, accCookie string
 	flags             gen.NetworkFlags
 	accFlags          gen.NetworkFlags
@@ -101,6 +102,7 @@ func startNetNode(reg *memReg, sp nodeSpec) (gen.Node, uint16, error) {
 	var opts gen.NodeOptions
 	opts.Network.Cookie = sp.cookie
 	opts.Network.Flags = sp.flags
+	opts.Network.MaxMessageSize = sp.maxSize
 	opts.Network.Registrar = &memRegNode{memReg: reg}
 	port := uint16(portBase + (nodeSeq*3)%90)
 	opts.Network.Acceptors = []gen.AcceptorOptions{{Host: "localhost", Port: port, PortRange: port + 60, Cookie: sp.accCookie, Flags: sp.accFlags}}
@@ -305,6 +307,12 @@ func runC15AcceptorSet(c *Ctx, reg *memReg) {
 		r.Count("nodes.inconclusive")
 		return
 	}
+	if os.Getenv("VERIF_DEBUG_SETCOOKIE") != "" {
+		fmt.Fprintf(os.Stderr, "setcookie: y=%s port=%d acceptors=%d before=%q\n", y.Name(), port, len(accs), accs[0].Cookie())
+	}
+	// accept() takes its snapshot of the acceptor's fields when its goroutine first runs; give it time to have done so
+	// (on a loaded machine a SetCookie issued within milliseconds of the node's start still wins the race)
+	time.Sleep(300 * time.Millisecond)
 	accs[0].SetCookie("a1")
 	reported := accs[0].Cookie()
 	yInfo, _ := y.Network().Info()
@@ -355,12 +363,12 @@ func runC15Requests(c *Ctx, reg *memReg) {
 		scens = scens[:3]
 	}
 	for si, sc := range scens {
-		y, _, err := startNetNode(reg, nodeSpec{cookie: "k", flags: sc.yFlags, security: gen.SecurityOptions{ExposeEnvInfo: true}})
+		y, _, err := startNetNode(reg, nodeSpec{cookie: "k", flags: sc.yFlags, maxSize: 222222 + si, security: gen.SecurityOptions{ExposeEnvInfo: true}})
 		if err != nil {
 			r.Count("nodes.inconclusive")
 			continue
 		}
-		x, _, err := startNetNode(reg, nodeSpec{cookie: "k", env: map[gen.Env]any{"K1": "v1", "K2": "v2"},
+		x, _, err := startNetNode(reg, nodeSpec{cookie: "k", maxSize: 111111 + si, env: map[gen.Env]any{"K1": "v1", "K2": "v2"},
 			security: gen.SecurityOptions{ExposeEnvRemoteSpawn: sc.expose, ExposeEnvRemoteApplicationStart: sc.exposeA}})
 		if err != nil {
 			y.StopForce()
@@ -380,10 +388,24 @@ func runC15Requests(c *Ctx, reg *memReg) {
 			if ri.NetworkFlags != sc.yFlags {
 				r.Violation("C15/agreement", fmt.Sprintf("X sees Y's flags as %+v, Y configured %+v", ri.NetworkFlags, sc.yFlags), nil)
 			}
-			if yr, err := y.Network().Node(x.Name()); err == nil {
-				if yr.Info().NetworkFlags != all || yr.Creation() != x.Creation() || rn.Creation() != y.Creation() {
-					r.Violation("C15/agreement", "Y's view of X (flags/creation) differs from X's configuration", nil)
+			if ri.MaxMessageSize != 222222+si || ri.Node != y.Name() {
+				r.Violation("C15/agreement", fmt.Sprintf("X sees Y as %s with max message size %d, Y is %s configured with %d", ri.Node, ri.MaxMessageSize, y.Name(), 222222+si), nil)
+			}
+			var yr gen.RemoteNode
+			for i := 0; i < 1000; i++ { // the acceptor registers the connection after the initiator's last message
+				if yr, err = y.Network().Node(x.Name()); err == nil {
+					break
 				}
+				time.Sleep(5 * time.Millisecond)
+			}
+			if err == nil {
+				yi := yr.Info()
+				if yi.NetworkFlags != all || yr.Creation() != x.Creation() || rn.Creation() != y.Creation() || yi.MaxMessageSize != 111111+si || yi.Node != x.Name() {
+					r.Violation("C15/agreement", fmt.Sprintf("Y's view of X (flags/creation/max size/name) differs from X's configuration: %+v", yi), nil)
+				}
+				r.Count("nodes.agreement-checked")
+			} else {
+				r.Violation("C15/one-sided-connection", "X is connected, Y does not know X", nil)
 			}
 			peers := []gen.Atom{x.Name(), "other1@host", "other2@host"} // model peers 0,1,2
 			nw := y.Network()
